@@ -1296,6 +1296,10 @@ Hread(int32 access_id, int32 length, void *data)
     if (length == 0 || length + access_rec->posn > data_len)
         length = data_len - access_rec->posn;
 
+    /* the position may have been moved past the end of the element */
+    if (length < 0)
+        HGOTO_ERROR(DFE_BADSEEK, FAIL);
+
     /* read in data */
     if (HP_read(file_rec, data, length) == FAIL)
         HGOTO_ERROR(DFE_READERROR, FAIL);
